@@ -148,9 +148,6 @@ def parseImpl (impl : String) : Option Impl :=
 
 /-! ### model prediction, compared field by field -/
 
-def hdrOf (spec : Spec) (s : Nat → Nat) (tokOff : Nat) (i : Nat) : Hdr :=
-  { dcid := dcidFor spec s, scid := scidFor spec s, token := tokenFor spec s tokOff, pn := pnFor spec i, pnLen := pnLenFor spec i }
-
 def witnessOf (fs : List Frame) : List (Nat × Nat) × Nat :=
   ((cryptoFrames fs).map (fun f => (f.offset, f.len)), numPing fs)
 
